@@ -276,7 +276,7 @@ def _run_stage(src, q, r):
                   subnet_scan_cost=src.quarter('c_subnet', 0, 400), process_scan_cost=src.quarter('c_process', 0, 400),
                   base_host_value=src.quarter('base_value', -400, 400),
                   host_discovery_value=src.quarter('disc_value', -400, 400),
-                  step_limit=src.int('limit', 1, None), seed=7, name='glue')
+                  step_limit=src.int('limit', 1, None), seed=src.int('seed', 0, None), name='glue')
         r.kw = kw
         with stubs.sut():
             r.sc = g.generate(q['n'], q['S'], **kw)
@@ -459,7 +459,9 @@ def obligations(r):
         obl.append(('step_limit_and_name', z3.And(sx.znum(sc.step_limit) == sx.znum(kw['step_limit']),
                                                   z3.BoolVal(sc.name == 'glue' and bool(sc.generated)))))
         obl.append(('default_address_bounds', z3.BoolVal(tuple(sc.address_space_bounds) == (len(sc.subnets), max(sc.subnets)))))
-        obl.append(('seeded', z3.BoolVal(r.seed_log == [('seed', 7)])))
+        obl.append(('seeded', z3.And(z3.BoolVal(len(r.seed_log) == 1),
+                                      sx.znum(r.seed_log[0][1]) == sx.znum(kw['seed']))
+                    if len(r.seed_log) == 1 and r.seed_log[0][1] is not None else z3.BoolVal(False)))
         sens = {(int(a[0]), int(a[1])): v for a, v in sc.sensitive_hosts.items()}
         obl.append(('sensitive_hosts', z3.And(z3.BoolVal(set(sens) == {(2, 0), (3, 0)}),
                                               *[_real(sens.get((2, 0), 0)) == _real(kw['r_sensitive']),
